@@ -8,6 +8,7 @@ import (
 	"sync/atomic"
 	"time"
 
+	pbredis "github.com/samaritan-proxy/samaritan/pb/config/protocol/redis"
 	predis "github.com/samaritan-proxy/samaritan/proc/redis"
 	"github.com/samaritan-proxy/samaritan/utils/verifhook"
 
@@ -30,8 +31,10 @@ const refreshMinRate = 100 * time.Millisecond
 type rstep struct {
 	A       string `json:"a"` // Change | Notice | Take | Answer | Fail | Wake
 	Phase   string `json:"phase"`
-	Layout  int    `json:"layout"`
+	Layout  int    `json:"layout"`  // master assignment (version)
+	RLayout int    `json:"rlayout"` // replica assignment (version)
 	Table   int    `json:"table"`
+	RTable  int    `json:"rtable"`
 	Trig    bool   `json:"trig"`
 	Loop    string `json:"loop"`
 	Noticed bool   `json:"noticed"`
@@ -39,9 +42,10 @@ type rstep struct {
 }
 
 type rbeh struct {
-	Flavour string  `json:"flavour"` // "move" | "failover"
-	Key     string  `json:"key"`     // stratum, "" for simulated histories
-	Steps   []rstep `json:"steps"`
+	Flavour  string  `json:"flavour"`  // "move" | "failover"
+	Strategy string  `json:"strategy"` // read strategy of the service: "MASTER" (default) | "REPLICA" | "BOTH" (flavour "move" only)
+	Key      string  `json:"key"`      // stratum, "" for simulated histories
+	Steps    []rstep `json:"steps"`
 }
 
 type rrun struct {
@@ -52,6 +56,7 @@ type rrun struct {
 	Quiet           bool     `json:"quiet"`                 // the refresh loop came to rest before the probe
 	ProbeReply      string   `json:"probeReply"`
 	ProbeRedirected bool     `json:"probeRedirected"` // the probe was routed by a stale table (MOVED / ASK seen by a node)
+	ProbeRedirects  int64    `json:"probeRedirects"`  // redirections caused by the probes (24 reads when reads are routed by the replica lists)
 	ProbeErr        bool     `json:"probeErr"`        // the probe was answered with an error
 	Asked           int64    `json:"asked"`           // CLUSTER NODES requests the seed received
 	Success         int64    `json:"success"`
@@ -78,11 +83,26 @@ func clusterCmds(n *simredis.Node) int64 {
 }
 
 func refreshOne(b rbeh, rest time.Duration) (run rrun) {
-	maxLayout := 0
+	maxLayout, maxR := 0, 0
 	for _, s := range b.Steps {
 		if s.Layout > maxLayout {
 			maxLayout = s.Layout
 		}
+		if s.RLayout > maxR {
+			maxR = s.RLayout
+		}
+	}
+	strategy := pbredis.ReadStrategy_MASTER
+	switch b.Strategy {
+	case "REPLICA":
+		strategy = pbredis.ReadStrategy_REPLICA
+	case "BOTH":
+		strategy = pbredis.ReadStrategy_BOTH
+	}
+	byReplica := strategy != pbredis.ReadStrategy_MASTER
+	if byReplica && b.Flavour != "move" {
+		run.Err = "read strategy " + b.Strategy + " is replayed in flavour move only"
+		return
 	}
 	startMu.Lock()
 	locked := true
@@ -95,13 +115,28 @@ func refreshOne(b rbeh, rest time.Duration) (run rrun) {
 	defer unlock()
 	var cl *simredis.Cluster
 	var err error
-	owners := []int{} // owners[i]: node that owns the key under layout i
+	owners := []int{}       // owners[i]: node that owns the key under master assignment i
+	reps := map[int][]int{} // master -> replicas that still follow it
+	nrep := 0
 	switch b.Flavour {
 	case "move":
-		// node 0 = seed, nodes 1.. = one owner per layout
-		cl, err = simredis.NewCluster(maxLayout+2, 0)
+		// node 0 = seed, nodes 1.. = one owner per master assignment; when reads are routed by the replica lists every
+		// master has maxR+1 replicas, a change of the replica assignment takes one of the owner's replicas away (it
+		// follows the seed from then on): a table that still lists it sends some reads to a node that redirects them
+		masters := maxLayout + 2
+		if byReplica {
+			nrep = maxR + 1
+		}
+		cl, err = simredis.NewCluster(masters, nrep)
 		for i := 0; i <= maxLayout; i++ {
 			owners = append(owners, i+1)
+		}
+		if err == nil {
+			for m := 0; m < masters; m++ {
+				for j := 0; j < nrep; j++ {
+					reps[m] = append(reps[m], masters+m*nrep+j)
+				}
+			}
 		}
 	default:
 		// masters 0 (seed) and 1, maxLayout replicas each: layout i>0 = the i-th replica of master 1 has taken over
@@ -132,7 +167,7 @@ func refreshOne(b rbeh, rest time.Duration) (run rrun) {
 		}
 	})
 	defer unhook()
-	px, err := sut.StartRedis(sut.RedisOpts{ConnectTO: 300 * time.Millisecond}, []string{seed.Addr})
+	px, err := sut.StartRedis(sut.RedisOpts{ConnectTO: 300 * time.Millisecond, ReadStrategy: strategy, Port: proxyPort()}, []string{seed.Addr})
 	unlock()
 	if err != nil {
 		run.Err = "start: " + err.Error()
@@ -174,7 +209,20 @@ func refreshOne(b rbeh, rest time.Duration) (run rrun) {
 		return f()
 	}
 	layout := 0
-	change := func() {
+	changes := 0
+	change := func(kind string) {
+		changes++
+		if kind == "replica" {
+			// a replica leaves the owner of the key (the master stays)
+			o := owners[layout]
+			if len(reps[o]) == 0 {
+				return
+			}
+			r := reps[o][0]
+			reps[o] = reps[o][1:]
+			cl.Reassign(r, 0)
+			return
+		}
 		from, to := cl.Nodes[owners[layout]], owners[layout+1]
 		layout++
 		if b.Flavour == "move" {
@@ -190,11 +238,25 @@ func refreshOne(b rbeh, rest time.Duration) (run rrun) {
 		time.Sleep(5 * time.Millisecond)
 	}
 	notice := func() string {
-		v, err := c.Do(3*time.Second, "get", key)
-		if err != nil {
-			return "none: " + err.Error()
+		// a request that meets the stale table; when reads are spread over several nodes only some of them do: send
+		// reads until one was redirected (a fresh table: none is)
+		tries := 1
+		if byReplica {
+			tries = 40
 		}
-		return v.String()
+		last := ""
+		for i := 0; i < tries; i++ {
+			red0 := atomic.LoadInt64(&cl.Redirects)
+			v, err := c.Do(3*time.Second, "get", key)
+			if err != nil {
+				return "none: " + err.Error()
+			}
+			last = v.String()
+			if v.IsErr() || atomic.LoadInt64(&cl.Redirects) != red0 {
+				break
+			}
+		}
+		return last
 	}
 	noticedSinceChange := false // by the harness' own order of actions: a request has met the stale table since the last change
 	for _, s := range b.Steps {
@@ -206,7 +268,7 @@ func refreshOne(b rbeh, rest time.Duration) (run rrun) {
 		}
 		switch s.A {
 		case "Change":
-			change()
+			change(s.Phase)
 			noticedSinceChange = false
 		case "Notice":
 			run.Notices = append(run.Notices, notice())
@@ -262,7 +324,7 @@ func refreshOne(b rbeh, rest time.Duration) (run rrun) {
 		return false
 	}
 	run.Quiet = quiesce()
-	if !noticedSinceChange && layout > 0 {
+	if !noticedSinceChange && changes > 0 {
 		// nobody has met the table since the last change (whatever the loop has installed meanwhile): if the table is stale,
 		// this request is the first redirection
 		run.ExtraNotice = notice()
@@ -270,16 +332,23 @@ func refreshOne(b rbeh, rest time.Duration) (run rrun) {
 	}
 	// the rounds triggered by the first redirection are over: requests are no longer redirected, and not answered
 	// with errors (the owner is reachable)
-	red0 := atomic.LoadInt64(&cl.Redirects)
-	v, err := c.Do(3*time.Second, "get", key)
-	if err != nil {
-		run.ProbeReply = "none: " + err.Error()
-		run.ProbeErr = true
-	} else {
-		run.ProbeReply = v.String()
-		run.ProbeErr = v.IsErr() || string(v.Str) != "v"
+	probes := 1
+	if byReplica {
+		probes = 24 // reads are spread over the master / the replicas of the table
 	}
-	run.ProbeRedirected = atomic.LoadInt64(&cl.Redirects) != red0
+	red0 := atomic.LoadInt64(&cl.Redirects)
+	for i := 0; i < probes && !run.ProbeErr; i++ {
+		v, err := c.Do(3*time.Second, "get", key)
+		if err != nil {
+			run.ProbeReply = "none: " + err.Error()
+			run.ProbeErr = true
+		} else {
+			run.ProbeReply = v.String()
+			run.ProbeErr = v.IsErr() || string(v.Str) != "v"
+		}
+	}
+	run.ProbeRedirects = atomic.LoadInt64(&cl.Redirects) - red0
+	run.ProbeRedirected = run.ProbeRedirects != 0
 	run.Asked, run.Success, run.Failure = clusterCmds(seed)-asked0, stat("success_total")-succ0, stat("failure_total")-fail0
 	return
 }
